@@ -47,7 +47,11 @@ PROFILE = {"add_formula_column": 10, "modify_formula": 6, "summary": 4, "update_
            "reverse_column": 1, "update_record": 18, "bulk_update": 8, "remove_record": 8, "bulk_remove": 4,
            "replace_data": 2, "rename_column": 4, "modify_type": 5, "to_formula": 2, "to_data": 1,
            "undo_earlier": 3, "malformed": 2, "trigger_column": 0, "trigger_config": 0, "unhashable_key": 5,
-           "retype_empty": 6, "add_empty_column": 3}
+           "retype_empty": 6, "add_empty_column": 3,
+           # an OLD undo list replayed on a document that has moved on is a raw application of doc actions: it can
+           # remove a table under its summary table or a column under its references (a document violating C09);
+           # such documents are outside this property's histories, as for C09 / C10 / C11 / C12
+           "stale_undo": 0}
 CFG = {"oracles": (), "n_bundles": 14, "profile": PROFILE, "hook": "gx.props.c07.install", "tie": False}
 
 
@@ -294,6 +298,12 @@ def reopen_oracle(h, rec):
     # not a reload problem: the running engine itself holds a value that a from-scratch
     # recalculation of the same data does not produce, in one of the ways recorded for C05
     h._find(PROP, SIG_STALE, "%s; Calculate stored %s" % ("; ".join(d[:2]), json.dumps(res.stored)[:200]), rec)
+    return
+  # a formula result whose encoding embeds a memory address (["U", "<built-in method count of tuple object at
+  # 0x7f...>"], e.g. `$choices.count` without the call) differs on every evaluation: a volatile formula, which the
+  # property excludes
+  if res.stored and all(" at 0x" in json.dumps(a_) for a_ in res.stored) and all(" at 0x" in x for x in d):
+    h.stats["volatile_repr_results_skipped"] = h.stats.get("volatile_repr_results_skipped", 0) + 1
     return
   if res.stored:
     nan = any("nan" in json.dumps(a) for a in res.stored)
